@@ -179,13 +179,14 @@ func (w *c03PWorld) take(li, ki, fault int) int {
 		return code
 	}
 	w.logf(" take%d(%s)=%s", li, k.name, c03CodeName(code))
-	if !w.e.reached(p) || w.e.transported(p) || w.e.executed(p) != 1 {
+	if !w.e.reached(p) || w.e.transported(p) || !w.oneExecution(p) {
 		w.abort("take: breaker/transport interfered (reached=%v transport=%v executions=%d err=%v)",
 			w.e.reached(p), w.e.transported(p), w.e.executed(p), err)
 	}
 	if err != nil {
-		w.fail("take on %s returned error %v (code %s) although the store executed the script", k.name, err, c03CodeName(code))
+		w.fail("take on %s returned error %v (code %s) although the store is reachable and received the command (statement: the first `quota` requests of a period are granted)", k.name, err, c03CodeName(code))
 	}
+	w.flushPending = false
 	k.count++
 	want := c03Expect(k.count, w.quota)
 	if code != want {
@@ -304,6 +305,21 @@ func c03PeriodCase(t *rapid.T, st *verifkit.Stats, align bool) {
 					for i := 0; i < w.quota+2; i++ {
 						if w.take((li+i)%len(w.lims), ki, c03FaultNone) == limit.OverQuota {
 							break
+						}
+					}
+				})
+			},
+			"lose": func(t *rapid.T) {
+				// the server loses its script cache; with its data the running periods are gone
+				drop := rapid.IntRange(0, 2).Draw(t, "drop") == 0
+				w.guard(func() {
+					if w.losses >= 2 {
+						return
+					}
+					w.lose(drop)
+					if drop {
+						for _, k := range w.keys {
+							k.active, k.count, k.hit = false, 0, false
 						}
 					}
 				})
